@@ -85,6 +85,18 @@ def build(gdim=2):
     z = um.m_zero((), (i.id, j.id), (2, 3))
     add("conditional(f<g, Zero[i,j], B[i,j]) * B[i,j]", mult(um.m_conditional(c, z, idx(B, i, j)), idx(B, i, j)))
     add("f/g + f**2", um.m_sum(um.m_division(f, g), um.m_power(f, um.m_scalar(2))))
+    # a zero with two free indices of different extents kept alive in a conditional branch / list row, below a
+    # component tensor that is then indexed by a fixed component: the surviving index keeps *its own* extent
+    cz = um.m_conditional(c, z, idx(B, i, j))
+    add("as_tensor(conditional(f<g, Zero[i,j], B[i,j]), (i,))[1] * w[j]", mult(idx(um.m_component_tensor(cz, MI((i,))), 1), idx(w, j)))
+    add("as_tensor(conditional(f<g, Zero[i,j], B[i,j]), (j,))[2] * u[i]", mult(idx(um.m_component_tensor(cz, MI((j,))), 2), idx(u, i)))
+    add("as_tensor(conditional(f<g, Zero[i,j], B[i,j]), (i,j))[1,k] * w[k]", mult(idx(um.m_component_tensor(cz, MI((i, j))), 1, k), idx(w, k)))
+    z1 = um.m_zero((), (i.id,), (2,))
+    cz1 = um.m_conditional(c, z1, idx(u, i))
+    add("as_tensor(conditional(f<g, Zero[i], u[i]), (i,))[0]   (every free index of the zero becomes fixed)", idx(um.m_component_tensor(cz1, MI((i,))), 0))
+    add("as_tensor(conditional(f<g, Zero[i,j], B[i,j]), (i,j))[1,2]", idx(um.m_component_tensor(cz, MI((i, j))), 1, 2))
+    lz = um.m_list_tensor(z, idx(B, i, j))
+    add("as_tensor(as_vector([Zero[i,j], B[i,j]])[l], (i,))[0] (free j, l)", idx(um.m_component_tensor(idx(lz, l), MI((i,))), 0))
     # index counts and fixed index values are different namespaces: indices whose counts are as small as the
     # fixed components next to them (the predefined ufl.i, ufl.j, ... have counts 0..7)
     i0, i1, i2 = new_index(0), new_index(1), new_index(2)
